@@ -62,6 +62,13 @@ Proof.
   apply app_nil_r.
 Qed.
 
+Lemma upd_ext {A} (d : A) : forall n l f g, (forall x, f x = g x) -> upd d l n f = upd d l n g.
+Proof.
+  induction n as [|n IH]; intros l f g H; destruct l as [|x r]; cbn [upd]; rewrite ?H; try reflexivity.
+  - f_equal. apply IH. exact H.
+  - f_equal. apply IH. exact H.
+Qed.
+
 Lemma overwrite_nil : forall v, overwrite [] 0 v = v.
 Proof.
   intros v. change (@nil N) with (@nil N ++ @nil N) at 1. change 0 with (@length N []).
@@ -178,8 +185,28 @@ Lemma run_cr s : run tc (s, Ground) (render_cmd CR) = (interp tc s CR, Ground).
 Proof. reflexivity. Qed.
 Lemma run_up1 s : run tc (s, Ground) (render_cmd (Up 1%N)) = (cursor_up tc 1 s, Ground).
 Proof. reflexivity. Qed.
-Lemma run_erase s : run tc (s, Ground) (render_cmd EraseEOL) = (interp tc s EraseEOL, Ground).
-Proof. reflexivity. Qed.
+Lemma ecol_0 : forall s, ccol s = 0 -> ecol tc s = 0.
+Proof.
+  intros s H. unfold ecol. rewrite H. destruct (dec tc); cbn [andb]; [|reflexivity].
+  destruct (Nat.leb_spec (width tc) 0); lia.
+Qed.
+
+Lemma erase2_at0 : forall s, ccol s = 0 -> erase_line tc 2 s = erase_line tc 0 s.
+Proof.
+  intros s H. unfold erase_line. rewrite (ecol_0 s H). reflexivity.
+Qed.
+
+(* The writer erases with the cursor at column 0 (right after CR).  There "erase to end of line"
+   (ESC[0K, ESC[K) and "erase the whole line" (ESC[2K) do the same, and the proof accepts either
+   sequence in cursor.go. *)
+Lemma run_erase_at0 s : ccol s = 0 ->
+  run tc (s, Ground) (render_cmd EraseEOL) = (interp tc s EraseEOL, Ground).
+Proof.
+  intros H.
+  first [ reflexivity
+        | change (run tc (s, Ground) (render_cmd EraseEOL)) with (erase_line tc 2 s, Ground);
+          cbn [interp]; rewrite (erase2_at0 s H); reflexivity ].
+Qed.
 Lemma run_hide s : run tc (s, Ground) (render_cmd HideCur) = (interp tc s HideCur, Ground).
 Proof. reflexivity. Qed.
 Lemma run_show s : run tc (s, Ground) (render_cmd ShowCur) = (interp tc s ShowCur, Ground).
@@ -187,7 +214,7 @@ Proof. reflexivity. Qed.
 
 (* the general statement: rendering then parsing is the command-level semantics *)
 Definition cmd_ok (c : cmd) : Prop :=
-  match c with Text t => wf_text t = true | Up n => n = 1%N | _ => True end.
+  match c with Text t => wf_text t = true | Up n => n = 1%N | EraseEOL => False | _ => True end.
 
 Lemma run_render_cmd : forall c s, cmd_ok c ->
   run tc (s, Ground) (render_cmd c) = (interp tc s c, Ground).
@@ -197,9 +224,17 @@ Proof.
   - apply run_lf.
   - apply run_cr.
   - subst n. apply run_up1.
-  - apply run_erase.
+  - destruct H.
   - apply run_hide.
   - apply run_show.
+Qed.
+
+Lemma run_render_cmd_at : forall c s,
+  match c with Text t => wf_text t = true | Up n => n = 1%N | EraseEOL => ccol s = 0 | _ => True end ->
+  run tc (s, Ground) (render_cmd c) = (interp tc s c, Ground).
+Proof.
+  intros c s H. destruct c; try (apply run_render_cmd; exact H).
+  apply run_erase_at0. exact H.
 Qed.
 
 Lemma run_render : forall cs s, Forall cmd_ok cs ->
